@@ -84,15 +84,15 @@ Definition s_push_all (saved : list span) (s : stack) : stack :=
   fold_left (fun acc x => s_push x acc) (rev saved) s.
 
 (* ---- operation histories, for the correspondence check against the real pest::Stack ---- *)
-Inductive sop := OPush (x : span) | OPop | OSnapshot | ORestore | OClear.
+Inductive sop := SoPush (x : span) | SoPop | SoSnapshot | SoRestore | SoClear.
 
 Definition sop_step (s : stack) (o : sop) : mres stack :=
   match o with
-  | OPush x => MOk (s_push x s)
-  | OPop => MOk (snd (s_pop s))
-  | OSnapshot => MOk (s_snapshot s)
-  | ORestore => s_restore s
-  | OClear => s_clear_snapshot s
+  | SoPush x => MOk (s_push x s)
+  | SoPop => MOk (snd (s_pop s))
+  | SoSnapshot => MOk (s_snapshot s)
+  | SoRestore => s_restore s
+  | SoClear => s_clear_snapshot s
   end.
 
 Fixpoint sop_run (s : stack) (os : list sop) : mres stack :=
